@@ -97,6 +97,11 @@ def validate_many(module, traces, timeout=300, workers=None):
                 f.write(json.dumps(e) + "\n")
         r = vlib.run_trace_spec(module, path, timeout=timeout, heap="1g")
         diag = None
+        if not r.ok and r.returncode == -1 and (r.violation or "").startswith("TLC timeout"):
+            # inconclusive, neither accepted nor rejected: the trace is left out (and counted in the evidence);
+            # the other traces of the run are still validated.  A timeout is not a verdict about the code.
+            vlib.SKIPPED_TRACES.append({"spec": module, "trace": str(tid), "events": len(evs), "timeout_s": timeout})
+            return tid, (True, "timeout", 0, 0)
         if not r.ok:
             diag = (json.dumps(r.cases[0]) if r.cases else "") + "\n" + (r.violation or "")[-1500:]
         return tid, (r.ok, diag, r.distinct, r.returncode)
